@@ -10,6 +10,7 @@ import Dassh.Model.Pressure
 import Dassh.Model.Power
 import Dassh.Model.Orifice
 import Dassh.Model.Accept
+import Dassh.Model.Pin
 
 open Dassh.Model
 
@@ -104,6 +105,17 @@ def handle (line : String) : String :=
       | Orifice.Outcome.ok g => "ok " ++ sizes g
       | Orifice.Outcome.notConverged g => "error " ++ sizes g
     | _, _, _ => "bad-op"
+  | "pin" :: rest =>
+    -- pin Tcool C h ro lnOuter lnFull kc gapDrop qdens | d k d k ...   (fuel shells from the surface inwards)
+    let (hd, sh) := splitBar rest
+    match floatList hd, floatList sh with
+    | some [tc, c, h, ro, lo, lf, kc, gap, qd], some vs =>
+      let cl : Pin.Clad Float := ⟨tc, c, h, ro, lo, lf, kc⟩
+      let tid := Pin.cladID cl
+      let ts := tid + gap
+      let fuel := Pin.fuelShells qd ts (floatPairs vs)
+      "ok " ++ showFloats ([Pin.cladOD cl, Pin.cladMW cl, tid, ts] ++ fuel)
+    | _, _ => "bad-op"
   | "accept" :: rest =>
     -- accept length asmPitch flowGap(0/1) bypass | nRing pitch diam clad wire lowFid(0/1) ducts... | ... || bc bc ...
     -- (assemblies separated by "|", boundary conditions after "||"; a missing bc is the token "none")
